@@ -38,7 +38,9 @@ def scenario(tier):
             name = sym.choose("generation", names)
             target = posixpath.join(folder, name)
             if kind == "modify":
-                b.alter(target, sym.int("edit", 1, 3))
+                # kind of byte edit (the model only sees "content differs"; the real replay performs exactly this edit):
+                # append newline | flip a bit | insert CR before a LF | truncate | CRLF conversion | insert a blank | append a comment
+                b.alter(target, sym.choose("edit_kind", [1, 2, 3, 4, 5, 6, 7]))
                 exp, exc = 31, "ModifiedMHLManifestFileException"
                 what = "manifest %s of %s modified" % (name[:4], hist)
             else:
@@ -86,6 +88,6 @@ def harnesses(tier):
                     what="histories built by real creates over U2 (nested layouts up to depth 4, 1-3 root generations); one manifest of any "
                          "history/generation modified or removed, or a chain removed; then each of 9 history-reading command forms",
                     bounds={"layouts": LAYOUTS, "root generations": "1-2 (quick) / 1-3 (thorough)", "commands": COMMANDS,
-                            "tamper": "content replaced by a different content id | manifest removed | chain removed"},
+                            "tamper": "7 kinds of byte edit (model: content id differs) | manifest removed | chain removed"},
                     outside=["edits that keep the bytes identical", "manifests present in the folder but not listed in the chain",
                              "info -sf without explicit root (consults only the nearest enclosing history)", "two simultaneous tampers"])]
